@@ -18,5 +18,6 @@ PropC17(e) == e.ev = "conc" =>
    /\ e.outcome = "returned"                                 \* no data race report, no fatal error
    /\ \A i \in 1..Len(e.calls) : Applicable(e.calls[i].op, e.calls[i].obj)      \* a configuration of the model
    /\ e.got = e.solo                                          \* every call returned the result it returns alone
+   /\ ("after" \in DOMAIN e => e.after = e.solo)              \* ... and so do the same calls on the shared objects afterwards
 InvC17 == l > 0 => PropC17(E)
 =====================================================================
